@@ -1504,6 +1504,9 @@ class Executor:
                               z3.Store(cont.ty.dom(cont.term), k.term,
                                        z3.BoolVal(False))))
                     self.write_path(st, p[0], p[1], new)
+                    hook = self.spec.get('on_delete', {}).get(p[0])
+                    if hook is not None and not p[1]:
+                        hook(self, st, k)       # ghost update tied to the deletion
                     continue
                 if isinstance(cont.ty, TRec) and key.has_py():
                     fty = cont.ty.fields.get(key.py)
